@@ -133,3 +133,30 @@ Print Assumptions C06_py_fresh_sound.
 Theorem C06_py_refuted_notation_pinned :
   exists p x n, py_fresh flags_no_fresh_simplify n p x = Some true /\ e_fresh (expand flags_no_fresh_simplify p) x = false.
 Proof. exists (and_p (PEVar 1) (PEVar 2)), 1, 20%nat. vm_compute. split; reflexivity. Qed.
+
+(** ** the same for the configuration the CURRENT code is in ([flags_current]: every repair applied, D9d's drop
+       of a substitution on a declared-fresh variable still present), on corner-free patterns
+       (Py/Bridge.v [corner_free se ss p]: no metavariable of p declares fresh a variable in se/ss, and every
+       pending substitution of p is on a variable in se/ss; every pattern without e_fresh/s_fresh declarations
+       qualifies, [unconstrained_corner_free]).  Appended by builder "Py". *)
+From Pi2 Require Import Py.Bridge Py.Current.
+Theorem C06_py_fresh_is_judgement_of_expansion_current_code : forall se ss n p x r,
+  corner_free se ss p = true -> py_fresh flags_current n p x = Some r -> r = e_fresh (expand flags_current p) x.
+Proof. exact (fun se ss => py_fresh_expand_cur se ss flags_current eq_refl eq_refl). Qed.
+Theorem C06_py_fresh_bridge : forall se ss f n p x, corner_free se ss p = true ->
+  py_fresh f n p x = py_fresh (with_keep f) n p x.
+Proof. exact py_fresh_bridge. Qed.
+Corollary C06_py_fresh_sound_current_code : forall se ss n p x vars plugs q,
+  corner_free se ss p = true -> py_fresh flags_current n p x = Some true ->
+  inst guards_sound (expand flags_current p) vars plugs = Some q -> concrete q = true -> efree x q = false.
+Proof.
+  intros se ss n p x vars plugs q Hc Hf Hi Hq.
+  apply (C06_e_fresh_sound (expand flags_current p) x vars plugs q); [|exact Hi|exact Hq].
+  symmetry. exact (C06_py_fresh_is_judgement_of_expansion_current_code se ss n p x true Hc Hf).
+Qed.
+Print Assumptions C06_py_fresh_sound_current_code.
+Example C06_py_ex_current_code :
+  corner_free [1] [] (and_p (PMVar 0 [3] [] [] [] []) (PESub (PMVar 1 [] [] [] [] []) 1 (PEVar 2))) = true /\
+  py_fresh flags_current 30 (and_p (PMVar 0 [3] [] [] [] []) (PESub (PMVar 1 [] [] [] [] []) 1 (PEVar 2))) 3 = Some false /\
+  py_fresh flags_current 30 (and_p (PMVar 0 [3] [] [] [] []) (PEVar 2)) 3 = Some true.
+Proof. vm_compute. repeat split; reflexivity. Qed.
